@@ -175,12 +175,20 @@ theorem c01_counterexample_for_ulint :
 pushed yet), while initialising the locals, inside the body (including nested and recursive
 calls), while collecting the outputs, a `RETURN`, a stray EXIT/CONTINUE, or an exhausted budget —
 the frame stack after the call has the length it had before.  No typing hypothesis. -/
-theorem c01_call_frames_balanced (fs : List StExt.FuncDef) (fuel : Nat) (ctl : StExt.Ctl)
+theorem c01_call_frames_balanced (ds : StExt.Defs) (fuel : Nat) (ctl : StExt.Ctl)
     (σ : StExt.XStore) (fd : StExt.FuncDef) (args : StExt.XArgs) :
-    (StExt.callFunction fs fuel ctl σ fd args).1.frames.length = σ.frames.length :=
-  (StExt.xexec_frames fs fuel).2.2.2.1 ctl σ fd args
+    (StExt.callFunction ds fuel ctl σ fd args).1.frames.length = σ.frames.length :=
+  (StExt.xexec_frames ds fuel).2.2.2.1 ctl σ fd args
 
-/-- … and so does every expression evaluation and every scan cycle of a program with FUNCTIONs. -/
+/-- **Stage S5 — FUNCTION_BLOCK calls** (`eval/mod.rs: call_function_block`): the same balance on
+every exit path: a fault while binding, inside the body, a body that ends with EXIT/CONTINUE
+(`InvalidControlFlow`), a fault while collecting the outputs, budget exhaustion. -/
+theorem c01_fb_call_frames_balanced (ds : StExt.Defs) (fuel : Nat) (ctl : StExt.Ctl)
+    (σ : StExt.XStore) (c : String) (fb : StExt.FbDef) (args : StExt.XArgs) :
+    (StExt.callFb ds fuel ctl σ c fb args).1.frames.length = σ.frames.length :=
+  (StExt.xexec_frames ds fuel).2.2.2.2.2.2.2.2.2.2 ctl σ c fb args
+
+/-- … and so does every scan cycle of a program with FUNCTIONs and FB instances. -/
 theorem c01_frames_balanced_s4 (p : StExt.XProgram) (fuel : Nat) (st : StExt.XRunState) :
     (StExt.xcycle p fuel st).1.store.frames.length = st.store.frames.length :=
   StExt.xcycle_frames p fuel st
